@@ -349,6 +349,7 @@ def run(ctx):
     ctx.require(ip is not None, 'anchor vanished: MetamathConverter._import_proof')
     c15.numbering(ctx, py, ip, conv)
     c15.label_tokens(ctx, py, ip)
+    floats_from_statement(ctx, py)
     ctx.floor('stack-discipline', 14)
     ctx.floor('operand-position', 8)
     ctx.explanation = (
@@ -366,6 +367,41 @@ def run(ctx):
                        '(database order, C15) and the essential hypotheses are the antecedents',
                        'prelude statements as defined in generation/mm-benchmarks/*.mm (all databases agree up to variable names)',
                        'python ast; tracker effects as decided under C04']
+
+
+def floats_from_statement(ctx, py):
+    """assumption made explicit: for a non-prelude label the replay pops len(get_metavars_in_order(label)) floating hypotheses, i.e.
+    `axiom.metavars`.  Metamath pushes one floating hypothesis per VARIABLE OF THE STATEMENT (and its hypotheses), whether or not the
+    converted pattern still mentions it (a notation may ignore a parameter).  So wherever the converter builds an Axiom / Lemma, its
+    `metavars` must be derived from the statement's variables, never from the metavariables of the converted pattern."""
+    conv = py.cls('MetamathConverter')
+    n = 0
+    for mname, fn in conv.methods.items():
+        env = {}
+        for st in ast.walk(fn):
+            if isinstance(st, (ast.Assign, ast.AnnAssign)):
+                t = st.targets[0] if isinstance(st, ast.Assign) else st.target
+                if isinstance(t, ast.Name) and st.value is not None:
+                    env.setdefault(t.id, []).append(st.value)
+        for call in ast.walk(fn):
+            if not (isinstance(call, ast.Call) and isinstance(call.func, ast.Name) and call.func.id in (
+                    'Axiom', 'AxiomWithAntecedents', 'Lemma', 'LemmaWithAntecedents') and len(call.args) >= 5):
+                continue
+            n += 1
+            seen, todo, bad = set(), [call.args[4]], None
+            while todo:
+                e = todo.pop()
+                for x in ast.walk(e):
+                    if isinstance(x, ast.Call) and isinstance(x.func, ast.Attribute) and x.func.attr == 'metavars' and not x.args:
+                        bad = x
+                    if isinstance(x, ast.Name) and x.id in env and x.id not in seen:
+                        seen.add(x.id)
+                        todo.extend(env[x.id])
+            ctx.ob('floats-from-statement', f'{mname}:{call.func.id}@{call.lineno - fn.lineno}', bad is None,
+                   f'{mname} builds a {call.func.id} whose `metavars` depend on `{ast.unparse(bad)[:60] if bad else ""}`, the metavariables of the '
+                   f'CONVERTED pattern: a variable the pattern drops (an ignored notation parameter) still has a floating hypothesis on the '
+                   f'Metamath stack, which the replay then never pops', py.where(conv.module, call))
+    ctx.floor('floats-from-statement', 5)
 
 
 def pattern_arms(ctx, py, eff):
@@ -446,12 +482,25 @@ def operand_positions(ctx, py, fn, local_defs, theory, STACK, receivers, LABEL, 
     if len(stores) == 1:
         key = stores[0].targets[0].slice
         kenv = {n.targets[0].id: n.value for n in lp.body if isinstance(n, ast.Assign) and isinstance(n.targets[0], ast.Name)}
-        ktxt = ast.unparse(key)
-        m = re.fullmatch(r'(\w+)\.name', ktxt)
-        src = ast.unparse(kenv[m.group(1)]) if m and m.group(1) in kenv else ktxt
-        val = stores[0].value
-        vtxt = ast.unparse(kenv[val.id]) if isinstance(val, ast.Name) and val.id in kenv else ast.unparse(val)
-        key_ok = re.fullmatch(rf'\w+\.resolve_metavar\({elem}\)(\.name)?', src) is not None and vtxt == ast.unparse(reads[0])
+
+        class _Subst(ast.NodeTransformer):
+            def visit_Name(self, node):
+                if isinstance(node.ctx, ast.Load) and node.id in kenv and node.id != elem:
+                    return self.visit(ast.parse(ast.unparse(kenv[node.id]), mode='eval').body)
+                return node
+
+        def resolved(e):
+            return ast.unparse(_Subst().visit(ast.parse(ast.unparse(e), mode='eval').body))
+        src = resolved(key)
+        vtxt = resolved(stores[0].value)
+        key_ok = re.fullmatch(rf'\w+\.resolve_metavar\({elem}\)\.name', src) is not None and vtxt == ast.unparse(reads[0])
+    # one entry per label, unconditionally: len(delta) is the number of floating hypotheses Instantiate takes off the stack
+    total = all(sum(1 for a in sp.actions for x in ast.walk(a) if x in stores) == 1 for sp in astpaths.paths(lp.body)
+                if sp.end in ('fall', 'continue')) and len(stores) == 1
+    ctx.ob('operand-position', 'get_delta/one-entry-per-label', total,
+           'get_delta must add exactly one entry for EVERY metavariable label (also when the plug is the metavariable itself): Metamath '
+           'pushed one floating hypothesis per variable and Instantiate pops len(delta) of them - a skipped entry leaves a pattern on '
+           'the stack and every later operand is read one slot off', where)
     ctx.ob('operand-position', 'get_delta/key', key_ok,
            'get_delta must map the metavariable resolved from the i-th label to the pattern read for the i-th label', where)
     # (2) prop-1 / prop-2: keys from unifying the prelude statement with the axiom schema, values from the float slots
